@@ -285,6 +285,9 @@ def l2_behaviours(run, quick):
 def main(run):
     quick = run.tier == 'quick'
     res = tlc.check_design('ObjectStore', 'MC_ObjectStore.cfg')
+    # the fake S3 / B2 services are replay-tested against spec/Services.tla first (a disagreement is a machinery failure)
+    from .. import svcselftest
+    run.add(fake_service_calls_validated_against_Services_tla=svcselftest.run(run.seed + 131, quick))
     run.add(states=res.distinct, transitions=res.generated)
     traces = []
     kinds = ['local:' + s for s in LOCAL_SPELLINGS] + ['s3:2', 's3:3', 's3:1000', 'b2:2', 'b2:3', 'b2:1000', 'cmd:local']
